@@ -375,6 +375,9 @@ class Func:
         self._sl = cand - bad
         return self._sl
 
+    VARIANT_PRESERVING = ('std::ops::Try::branch', 'std::result::Result::<T, E>::map', 'std::result::Result::<T, E>::map_err',
+                          'std::option::Option::<T>::map', 'std::result::Result::<T, E>::inspect_err', 'std::result::Result::<T, E>::inspect')
+
     DISCR_TESTS = {
         'std::option::Option::<T>::is_none': ('std::option::Option', {1: 0, 0: 1}),
         'std::option::Option::<T>::is_some': ('std::option::Option', {1: 1, 0: 0}),
@@ -461,6 +464,14 @@ class Func:
             for k in [k for k, v in envd.items() if isinstance(k, tuple) and v == l]:
                 envd.pop(k, None)
         self._forget_enum(envd, x)
+        # enum facts: the variant of a freshly built aggregate, and moves/copies of a whole enum local
+        if rv is not None and x in self._frozen_enums():
+            if rv['k'] == 'agg' and rv.get('ak') == 'adt' and isinstance(rv.get('vidx'), int) and rv.get('variant') is not None:
+                envd[('D', x)] = rv['vidx']
+            elif rv['k'] == 'use' and 'l' in rv['op'] and not rv['op']['p'] and ('D', rv['op']['l']) in envd:
+                envd[('D', x)] = envd[('D', rv['op']['l'])]
+                if ('P', rv['op']['l']) in envd:
+                    envd[('P', x)] = envd[('P', rv['op']['l'])]
         if x not in stable:
             return
         if rv is not None and rv['k'] == 'discr' and 'l' in rv.get('place', {}) and not rv['place']['p'] and rv['place']['l'] in self._frozen_enums():
@@ -504,6 +515,14 @@ class Func:
         if t['k'] == 'call' and not t['dest']['p']:
             e2 = dict(envd)
             self._env_assign(e2, t['dest']['l'], None, stable)
+            # variant-preserving calls: `?` (Try::branch: Ok/Some -> Continue, Err/None -> Break) and map/map_err
+            cal = t.get('callee') or ''
+            if cal in self.VARIANT_PRESERVING and t['args'] and 'l' in t['args'][0] and not t['args'][0]['p'] \
+                    and ('D', t['args'][0]['l']) in envd and t['dest']['l'] in self._frozen_enums():
+                dv = envd[('D', t['args'][0]['l'])]
+                if cal == 'std::ops::Try::branch' and 'std::option::Option' in (t['args'][0].get('ty') or ''):
+                    dv = 1 - dv  # None(0) -> Break(1), Some(1) -> Continue(0)
+                e2[('D', t['dest']['l'])] = dv
             dt = self.DISCR_TESTS.get(t.get('callee') or '')
             if dt and t['args'] and 'l' in t['args'][0] and not t['args'][0]['p']:
                 d = self.single_def(t['args'][0]['l'])
